@@ -27,7 +27,7 @@ rm -f $DDIR/zz_demo${K}_test.go
 # run the check against the changed tree (the scratch worktree with the patch applied; /repo itself is not
 # touched, so a concurrently running check of /repo is not disturbed)
 mkdir -p /tmp/seed-ev-$P/evidence; cp /verif/known_findings.txt /tmp/seed-ev-$P/
-CP=$P; [ "$P-$K" = "C01-3" ] && CP=C05
+CP=$P; [ "$P-${OUTK:-$K}" = "C01-3" ] && CP=C05
 ZL_REPO=$W ZL_VERIF=/tmp/seed-ev-$P /verif/bin/zlcheck -property $CP -tier quick > /tmp/seed-check-$P.log 2>&1; RC=$?
 rm -rf /tmp/seed-ev-$P
 git checkout -q -- . ; git clean -fdq
@@ -35,7 +35,7 @@ echo "build=$BUILD suite_fail_lines=$SUITE_FAILS suite_binarylog_rc=$SUITEB demo
 if [ $BUILD -ne 0 ] || [ $SUITE_FAILS -ne 0 ] || [ $CLEAN -ne 0 ] || [ $MUT -eq 0 ]; then
   echo "NOT CONFIRMED"; grep -E "^(FAIL|---) " /tmp/seed-suite-$P.log | head; tail -5 /tmp/seed-mut-$P.log; exit 1
 fi
-DET="missed"; [ $RC -eq 1 ] && grep -q "VIOLATION property=$P" /tmp/seed-check-$P.log && DET="detected"
+DET="missed"; [ $RC -eq 1 ] && grep -q "VIOLATION property=$CP" /tmp/seed-check-$P.log && DET="detected"
 echo "check rc=$RC => $DET"; grep "^REPORT" /tmp/seed-check-$P.log | cut -c1-260 | head -5
 D=/verif/seeded/$P-${OUTK:-$K}; mkdir -p $D
 cp $O/patch$K.diff $D/patch.diff; cp $O/demo${K}_test.go $D/demo_test.go; cp $O/notes$K.txt $D/notes.txt 2>/dev/null
